@@ -28,7 +28,10 @@ def run_check(tier, seed):
     for _ in range(n):
         c = gen_version_case(rng, UNICODE_TEXTS) if rng.random() < 0.7 else gen_flow_text_case(rng, now)
         c["fmt"] = rng.choice(["semver", "pep440"])
-        c["prefix"] = rng.choice([None, None, None, "v", "release-", "é "])
+        # the prefix is literal text: template syntax, blanks at either end, quotes, shell and format metacharacters in it are printed as they are
+        c["prefix"] = rng.choice([None, None, None, "v", "release-", "é "] if rng.random() < 0.7 else
+                                 ["{{ major }}-", "{{ bumped_branch }}/", "{# x #}", " v", "v ", "\t", "{{", "}}", "{% raw %}", "{%", "%Y", "%s", "{}", "{0}", "$HOME/", "\\", "'", '"', "--", "-", "+",
+                                  "{{ semver }}", "{{ pep440 }}@", "v{{'", "  "])
         cases.append(c)
     # stdin texts
     objs = [c["stdin_obj"] for c in cases if c.get("stdin_obj")]
@@ -115,6 +118,6 @@ def run_check(tier, seed):
 
 RULE = ("cases are full process runs of the binary built from /repo: `zerv version` (source none with --tag-version, or stdin Zerv RON with random valid "
         "schemas) and `zerv flow`, with all 22 presets / custom RON schemas, override and bump flags, and Unicode / long / digit-only texts in branch, "
-        "hash and custom positions, --output-format semver|pep440 and optional --output-prefix; every successful stdout is judged by the extracted "
+        "hash and custom positions, --output-format semver|pep440 and optional --output-prefix (plain, and with template syntax, blanks, quotes and format metacharacters: literal text); every successful stdout is judged by the extracted "
         "grammar oracles (SemVer BNF regex, PEP 440 Appendix B + normal form, zerv's own parser model), by `zerv check`, by re-rendering (presets), and "
         "compared with the pipeline model; distinct_nontrivial = distinct emitted version strings")
